@@ -761,3 +761,180 @@ func ruleSibBound(c *Ctx, r *R) {
 		r.undecided("unresolved:methods", "-", fmt.Sprintf("UNRESOLVED: %d of (*object).call / construct / hasInstance found", n))
 	}
 }
+
+func init() {
+	register(&Rule{ID: "SIB-exotic-define", Props: []string{"C07", "C09"}, Min: 3,
+		Doc: "T (sibling agreement of class-table slots): a class whose [[GetOwnProperty]] is not the ordinary one exposes own properties that are not in the property table (the index properties of a String object, bridged Go values). An ordinary slot implementation that reads the table directly (computed: it calls readProperty or indexes object.property; today [[DefineOwnProperty]]) never sees those properties: a class table that overrides getOwnProperty must override every such slot as well - otherwise `Object.defineProperty(new String('ab'), '0', {value:'x'})` silently shadows a non-writable, non-configurable property (ES5 15.5.5.2)",
+		Run: ruleSibExoticDefine})
+}
+
+func ruleSibExoticDefine(c *Ctx, r *R) {
+	impls := slotImplsOf(c)
+	ordinary := map[string]string{"getOwnProperty": "objectGetOwnProperty", "defineOwnProperty": "objectDefineOwnProperty", "delete": "objectDelete"}
+	// per class table (package-level variable): slot -> function
+	tables := map[string]map[string]*ssa.Function{}
+	for _, fn := range c.AllSrcFuncs("") {
+		for _, b := range fn.Blocks {
+			for _, ins := range b.Instrs {
+				st, ok := ins.(*ssa.Store)
+				if !ok {
+					continue
+				}
+				g, ok := st.Addr.(*ssa.Global)
+				if !ok {
+					continue
+				}
+				al, ok := st.Val.(*ssa.Alloc)
+				if !ok || !typeIs(al.Type(), ottoPath, "objectClass") {
+					continue
+				}
+				slots := map[string]*ssa.Function{}
+				for _, ref := range *al.Referrers() {
+					fa, ok := ref.(*ssa.FieldAddr)
+					if !ok {
+						continue
+					}
+					_, f := fieldOfAddr(fa)
+					for _, r2 := range *fa.Referrers() {
+						if s2, ok := r2.(*ssa.Store); ok && s2.Addr == fa {
+							if impl, ok := s2.Val.(*ssa.Function); ok {
+								slots[f.Name()] = impl
+							}
+						}
+					}
+				}
+				tables[g.Name()] = slots
+			}
+		}
+	}
+	_ = impls
+	if len(tables) < 4 {
+		r.undecided("unresolved:tables", "-", fmt.Sprintf("UNRESOLVED: %d class tables found", len(tables)))
+		return
+	}
+	// which ordinary slot implementations read the property table directly (readProperty / the map) instead of asking the
+	// object's own [[GetOwnProperty]]
+	rawSlot := map[string]bool{}
+	for slot, implName := range ordinary {
+		for _, fn := range c.AllSrcFuncs("") {
+			if fn.Name() != implName || fn.Parent() != nil {
+				continue
+			}
+			for _, g := range withAnon(fn) {
+				for _, b := range g.Blocks {
+					for _, ins := range b.Instrs {
+						if call, ok := ins.(*ssa.Call); ok && call.Call.StaticCallee() != nil && call.Call.StaticCallee().Name() == "readProperty" {
+							rawSlot[slot] = true
+						}
+						if lk, ok := ins.(*ssa.Lookup); ok {
+							if ld, ok := lk.X.(*ssa.UnOp); ok && isFieldAddr(ld.X, "object", "property") {
+								rawSlot[slot] = true
+							}
+						}
+					}
+				}
+			}
+		}
+	}
+	var raws []string
+	for s := range rawSlot {
+		raws = append(raws, s)
+	}
+	sort.Strings(raws)
+	r.ok("raw-slots", "-", fmt.Sprintf("ordinary slot implementations that read the property table directly: %v", raws))
+	names := make([]string, 0, len(tables))
+	for n := range tables {
+		names = append(names, n)
+	}
+	sort.Strings(names)
+	for _, name := range names {
+		slots := tables[name]
+		get := slots["getOwnProperty"]
+		if get == nil {
+			r.undecided("unresolved:"+name, "-", "UNRESOLVED: getOwnProperty slot of "+name)
+			continue
+		}
+		if get.Name() == ordinary["getOwnProperty"] {
+			r.ok(name, c.Pos(get.Pos()), "ordinary [[GetOwnProperty]]: every own property is in the table")
+			continue
+		}
+		for _, slot := range []string{"defineOwnProperty", "delete"} {
+			if !rawSlot[slot] {
+				continue // the ordinary implementation of this slot goes through the class's own [[GetOwnProperty]]
+			}
+			impl := slots[slot]
+			key := name + ":" + slot
+			switch {
+			case impl == nil:
+				r.undecided("unresolved:"+key, "-", "UNRESOLVED: slot "+slot+" of "+name)
+			case impl.Name() == ordinary[slot]:
+				r.bad(key, c.Pos(get.Pos()), fmt.Sprintf("class table %s has its own [[GetOwnProperty]] (%s) but the ordinary %s, which reads the property table directly and never sees the properties %s adds: the definition succeeds against the table and the virtual property is shadowed or ignored (String objects: `Object.defineProperty(new String('ab'), '0', {value:'x'})` overwrote a non-writable, non-configurable index property)", name, get.Name(), ordinary[slot], get.Name()))
+			default:
+				r.ok(key, c.Pos(impl.Pos()), "overridden together with [[GetOwnProperty]]")
+			}
+		}
+	}
+}
+
+func init() {
+	register(&Rule{ID: "STRING-index-attrs", Props: []string{"C07", "C09"}, Min: 1,
+		Doc: "S: ES5 15.5.5.2 - the index properties of a String object are { [[Writable]]: false, [[Enumerable]]: true, [[Configurable]]: false }. Every property literal built by the function in the getOwnProperty slot of the String class table carries the constant mode 0o010",
+		Run: ruleStringIndexAttrs})
+}
+
+func ruleStringIndexAttrs(c *Ctx, r *R) {
+	// the function in the getOwnProperty slot of the String class table
+	var getOwn *ssa.Function
+	for _, fn := range c.AllSrcFuncs("") {
+		for _, b := range fn.Blocks {
+			for _, ins := range b.Instrs {
+				st, ok := ins.(*ssa.Store)
+				if !ok {
+					continue
+				}
+				g, ok := st.Addr.(*ssa.Global)
+				if !ok || g.Name() != "classString" {
+					continue
+				}
+				al, ok := st.Val.(*ssa.Alloc)
+				if !ok {
+					continue
+				}
+				for _, ref := range *al.Referrers() {
+					fa, ok := ref.(*ssa.FieldAddr)
+					if !ok {
+						continue
+					}
+					if _, f := fieldOfAddr(fa); f == nil || f.Name() != "getOwnProperty" {
+						continue
+					}
+					for _, r2 := range *fa.Referrers() {
+						if s2, ok := r2.(*ssa.Store); ok && s2.Addr == fa {
+							getOwn, _ = s2.Val.(*ssa.Function)
+						}
+					}
+				}
+			}
+		}
+	}
+	if getOwn == nil {
+		r.undecided("unresolved:classString", "-", "UNRESOLVED: getOwnProperty slot of classString")
+		return
+	}
+	n := 0
+	for _, b := range getOwn.Blocks {
+		for _, ins := range b.Instrs {
+			st, ok := ins.(*ssa.Store)
+			if !ok || !isFieldAddr(st.Addr, "property", "mode") {
+				continue
+			}
+			n++
+			k, isConst := constInt(st.Val)
+			r.check(isConst && k == 0o010, getOwn.Name(), c.Pos(instrPos(st)), "mode 0o010: enumerable only",
+				fmt.Sprintf("%s builds the index property of a String object with mode %#o; ES5 15.5.5.2 requires writable:false, enumerable:true, configurable:false (0o010): `Object.getOwnPropertyDescriptor(new String('ab'), '0').enumerable` must be true", getOwn.Name(), k))
+		}
+	}
+	if n == 0 {
+		r.undecided("unresolved:index-property", c.Pos(getOwn.Pos()), "UNRESOLVED: "+getOwn.Name()+" builds no property literal")
+	}
+}
